@@ -52,7 +52,7 @@ def pool(src, tgt):
             "Time": [("2020-01-01/2020-12-31", "2020-01-01/2020-12-31"), ("abc", BAD)],
         }[tgt]
     if src == "Date":
-        return {"Date": [("2020-01-15", "2020-01-15")], "String": [("2020-01-15", ANY)], "Time_Period": [("2020-01-15", "2020D15"), ("2020-12-31", "2020D366")]}[tgt]
+        return {"Date": [("2020-01-15", "2020-01-15")], "String": [("2020-01-15", ANY)], "Time_Period": [("2020-01-15", "2020D15"), ("2020-12-31", "2020D366"), ("2021-01-01", "2021D1"), ("2019-12-30", "2019D364"), ("2024-12-31", "2024D366"), ("2023-12-31", "2023D365"), ("2027-01-03", "2027D3")]}[tgt]
     if src == "Time":
         return [("2020-01-01/2020-12-31", "2020-01-01/2020-12-31" if tgt == "Time" else ANY)]
     if src == "Time_Period":
